@@ -51,8 +51,6 @@ Proof. exact no_braces_identity. Qed.
 
 (* ---------- examples ---------- *)
 
-Definition rt_ex : runtime := Runtime [("a", "X"); ("b", "Y"); ("e", ""); ("a", "Z")] true.
-
 Example C07_ex_whole : escape_component rt_ex "p" "{a}" = Ok "Z".
 Proof. vm_compute. reflexivity. Qed.
 Example C07_ex_none : escape_component rt_ex "p" "main.o" = Ok "main.o".
@@ -87,6 +85,187 @@ Example C07_ex_keys_missing : Keys "{a}{zz}{yy}{b}" ["a"; "zz"; "yy"; "b"] /\
                               FirstMissing rt_ex ["a"; "zz"; "yy"; "b"] "zz".
 Proof. exact (conj ex_keys_2 (ex_first_missing rt_ex eq_refl eq_refl)). Qed.
 
+(* ====================================================================== *)
+(* paths                                                                   *)
+(* ====================================================================== *)
+
+(* PathBuf::push on components, the exact law for all p and q: an absolute q replaces p; pushed on the
+   empty path q is itself; otherwise q contributes its non-empty, non-"." parts after those of p *)
+Theorem C07_push_components : forall p q,
+  components (push p q) =
+  if is_absolute q then components q
+  else if is_empty p then components q
+  else (components p ++ rel_comps q)%list.
+Proof. exact components_push. Qed.
+
+Theorem C07_push_display : forall p q,
+  is_absolute q = false -> is_empty p = false ->
+  display (push p q) = join "/" (components p ++ rel_comps q)%list.
+Proof. exact display_push. Qed.
+
+(* what a relative path contributes later is its components but for a leading "." *)
+Theorem C07_rel_comps : forall q, is_absolute q = false -> rel_comps q = strip_cur (components q).
+Proof. exact rel_comps_components. Qed.
+
+(* any number of relative parts pushed on any path: the "/"-join *)
+Theorem C07_push_all_components : forall parts acc,
+  Forall relative parts -> components (push_all acc parts) = joined acc parts.
+Proof. exact components_push_all. Qed.
+
+Theorem C07_push_all_display : forall acc parts,
+  Forall relative parts -> display (push_all acc parts) = join "/" (joined acc parts).
+Proof. exact display_push_all. Qed.
+
+(* escape_path: every component goes through the substitution, the results are pushed in order;
+   the error is that of the first component that has one *)
+Theorem C07_escape_path_fold : forall rt p,
+  escape_path rt p = (do l' <- map_res (escape_component rt p) (components p); Ok (push_all "" l')).
+Proof. exact escape_path_push_all. Qed.
+
+Theorem C07_escape_path_ok : forall rt p r,
+  escape_path rt p = Ok r <->
+  exists l', Forall2 (fun c c' => Subst rt p c (Ok c')) (components p) l' /\ r = push_all "" l'.
+Proof. exact escape_path_ok_iff. Qed.
+
+Theorem C07_escape_path_error : forall rt p e,
+  escape_path rt p = Err e <->
+  exists l1 c l2, components p = (l1 ++ c :: l2)%list /\ Subst rt p c (Err e) /\
+                  forall c0, In c0 l1 -> exists t, Subst rt p c0 (Ok t).
+Proof. exact escape_path_err_iff. Qed.
+
+(* ---------- what emit_sff does with one entry ---------- *)
+
+Theorem C07_emit_object : forall rt sty cfg seg sections f k base ws p',
+  should_emit rt (fi_conds f) = true -> fi_kind f = KObject -> escape_path rt (fi_path f) = Ok p' ->
+  emit_file_of rt sty cfg seg sections f k base ws =
+  Ok ([SInput (keeps (fi_keep f) k) (display (push base p')) None k (wildcard_sections seg)],
+      add_path (push base p') ws).
+Proof. exact emit_file_object. Qed.
+
+Theorem C07_emit_archive : forall rt sty cfg seg sections f k base ws p',
+  should_emit rt (fi_conds f) = true -> fi_kind f = KArchive -> escape_path rt (fi_path f) = Ok p' ->
+  emit_file_of rt sty cfg seg sections f k base ws =
+  Ok ([SInput (keeps (fi_keep f) k) (display (push base p')) (Some (fi_subfile f)) k (wildcard_sections seg)],
+      add_path (push base p') ws).
+Proof. exact emit_file_archive. Qed.
+
+Theorem C07_emit_group : forall rt sty cfg seg sections f k base ws d',
+  should_emit rt (fi_conds f) = true -> fi_kind f = KGroup -> escape_path rt (fi_dir f) = Ok d' ->
+  emit_file_of rt sty cfg seg sections f k base ws =
+  fold_out (fun c ws => emit_sff rt sty cfg seg sections c (chain_fuel seg) [] k (push base d') ws)
+           (fi_files f) ws.
+Proof. exact emit_file_group. Qed.
+
+(* [emit_file_of] is the per-section body of emit_sff *)
+Theorem C07_emit_sff_step : forall rt sty cfg seg sections f n stack section base ws,
+  emit_sff rt sty cfg seg sections f (S n) stack section base ws =
+  if mem_str section stack then Err (ESubgroupCycle (sg_name seg) section) else
+  chain_step (emit_file_of rt sty cfg seg sections f)
+             (emit_sff rt sty cfg seg sections f n (section :: stack)) cfg seg f sections section base ws.
+Proof. exact emit_sff_S. Qed.
+
+(* ---------- every emitted and every recorded path, at any depth of nesting ---------- *)
+
+Theorem C07_emit_path : forall rt sty cfg seg sections f n stack section base ws o,
+  emit_sff rt sty cfg seg sections f n stack section base ws = Ok o ->
+  InputsFrom rt base [f] (fst o) /\ PathsFrom rt base [f] ws (snd o).
+Proof. exact emit_sff_inv. Qed.
+
+Theorem C07_emit_section : forall rt sty cfg seg sections bp section ws o,
+  emit_section rt sty cfg seg sections bp section ws = Ok o ->
+  exists b0 base,
+    escape_path rt bp = Ok b0 /\
+    (if reference_partial cfg then base = b0
+     else exists d, escape_path rt (sg_dir seg) = Ok d /\ base = push b0 d) /\
+    InputsFrom rt base (sg_files seg) (fst o) /\ PathsFrom rt base (sg_files seg) ws (snd o).
+Proof. exact emit_section_inv. Qed.
+
+(* the text of such a path when the escaped dirs and path are relative *)
+Theorem C07_emit_path_join : forall base dirs' p',
+  Forall relative (dirs' ++ [p'])%list ->
+  display (push_all base (dirs' ++ [p'])%list) = join "/" (joined base (dirs' ++ [p'])%list).
+Proof. exact display_raw. Qed.
+
+(* ---------- a missing key is an error, never an unexpanded path ---------- *)
+
+Theorem C07_emit_path_error : forall rt sty cfg seg sections f n stack section base ws e k rest,
+  mem_str section stack = false -> sections_here f section sections = k :: rest ->
+  should_emit rt (fi_conds f) = true -> fi_kind f = KObject \/ fi_kind f = KArchive ->
+  escape_path rt (fi_path f) = Err e ->
+  emit_sff rt sty cfg seg sections f (S n) stack section base ws = Err e.
+Proof. exact emit_sff_path_error. Qed.
+
+Theorem C07_emit_dir_error : forall rt sty cfg seg sections f n stack section base ws e k rest,
+  mem_str section stack = false -> sections_here f section sections = k :: rest ->
+  should_emit rt (fi_conds f) = true -> fi_kind f = KGroup ->
+  escape_path rt (fi_dir f) = Err e ->
+  emit_sff rt sty cfg seg sections f (S n) stack section base ws = Err e.
+Proof. exact emit_sff_dir_error. Qed.
+
+Theorem C07_emit_section_base_error : forall rt sty cfg seg sections bp section ws e,
+  escape_path rt bp = Err e -> emit_section rt sty cfg seg sections bp section ws = Err e.
+Proof. exact emit_section_base_error. Qed.
+
+Theorem C07_emit_section_dir_error : forall rt sty cfg seg sections bp section ws b0 e,
+  escape_path rt bp = Ok b0 -> reference_partial cfg = false -> escape_path rt (sg_dir seg) = Err e ->
+  emit_section rt sty cfg seg sections bp section ws = Err e.
+Proof. exact emit_section_dir_error. Qed.
+
+(* ---------- partial objects ---------- *)
+
+Theorem C07_partial_segment_object : forall d rt folder seg acc,
+  should_emit rt (sg_conds seg) = true ->
+  partial_segment d rt folder seg acc =
+  (do sub <- add_single_segment rt (doc_settings d) cfg_sub_partial (doc_vram_classes d) seg ws0;
+   do o <- add_segment rt (doc_settings d) cfg_main_partial (doc_vram_classes d)
+             (clone_with_new_files seg [new_object (push folder (sg_name seg ++ ".o"))]) (fst acc);
+   Ok (fst o,
+       (snd o, (snd acc ++ [(sg_name seg,
+                             WriterOut (version_stmts rt ++ fst sub)%list (ws_paths (snd sub)))])%list))).
+Proof. exact partial_segment_unfold. Qed.
+
+Theorem C07_partial_object_name : forall folder name,
+  is_empty folder = false -> contains_char "/" name = false ->
+  components (push folder (name ++ ".o")) = (components folder ++ [(name ++ ".o")%string])%list.
+Proof. exact partial_object_components. Qed.
+
+Theorem C07_partial_object : forall rt sty seg0 sections bp section ws p b0 p',
+  escape_path rt bp = Ok b0 -> escape_path rt p = Ok p' ->
+  emit_section rt sty cfg_main_partial (clone_with_new_files seg0 [new_object p]) sections bp section ws =
+  Ok ([SInput false (display (push b0 p')) None section (wildcard_sections seg0)],
+      add_path (push b0 p') ws).
+Proof. exact partial_object_emit. Qed.
+
+Theorem C07_partial_object_error : forall rt sty seg0 sections bp section ws p b0 e,
+  escape_path rt bp = Ok b0 -> escape_path rt p = Err e ->
+  emit_section rt sty cfg_main_partial (clone_with_new_files seg0 [new_object p]) sections bp section ws = Err e.
+Proof. exact partial_object_error. Qed.
+
+(* ---------- examples ---------- *)
+
+Example C07_ex_push : components (push "a/b/" "./c/./d//e") = ["a"; "b"; "c"; "d"; "e"].
+Proof. vm_compute. reflexivity. Qed.
+Example C07_ex_push_hyp : is_absolute "./c/./d//e" = false /\ is_empty "a/b/" = false.
+Proof. vm_compute. split; reflexivity. Qed.
+Example C07_ex_joined : joined "" [""; "./a"; "./b"; "c/"] = ["."; "a"; "b"; "c"].
+Proof. vm_compute. reflexivity. Qed.
+Example C07_ex_escape_path : escape_path rt_ex2 "./a/{v}//b/./{w}{w}.o" = Ok "./a/eu/b/11.o".
+Proof. vm_compute. reflexivity. Qed.
+Example C07_ex_escape_path_missing :
+  escape_path rt_ex2 "a/{v}/{zz}/{yy}" = Err (ECustomOptionNotProvided "a/{v}/{zz}/{yy}" "zz").
+Proof. vm_compute. reflexivity. Qed.
+(* a nested group under a base: base / group dirs outermost first / path, "." and empty parts dropped *)
+Example C07_ex_emit :
+  ex_inputs rt_ex2 "build/eu/src" = Ok [SInput false "build/eu/src/lib1/x/eu/eu1.o" None ".text" true].
+Proof. vm_compute. reflexivity. Qed.
+Example C07_ex_emit_join :
+  Forall relative ["lib1"; "x/eu"; "eu1.o"] /\
+  join "/" (joined "build/eu/src" ["lib1"; "x/eu"; "eu1.o"]) = "build/eu/src/lib1/x/eu/eu1.o".
+Proof. split; [exact ex_relative | vm_compute; reflexivity]. Qed.
+Example C07_ex_emit_missing :
+  ex_inputs (Runtime [("w", "1")] true) "build" = Err (ECustomOptionNotProvided "./x//{v}/." "v").
+Proof. vm_compute. reflexivity. Qed.
+
 Print Assumptions C07_subst_functional.
 Print Assumptions C07_subst_total.
 Print Assumptions C07_keys_total.
@@ -97,3 +276,26 @@ Print Assumptions C07_scan_within.
 Print Assumptions C07_no_reject.
 Print Assumptions C07_error_iff.
 Print Assumptions C07_no_braces_identity.
+Print Assumptions C07_push_components.
+Print Assumptions C07_push_display.
+Print Assumptions C07_rel_comps.
+Print Assumptions C07_push_all_components.
+Print Assumptions C07_push_all_display.
+Print Assumptions C07_escape_path_fold.
+Print Assumptions C07_escape_path_ok.
+Print Assumptions C07_escape_path_error.
+Print Assumptions C07_emit_object.
+Print Assumptions C07_emit_archive.
+Print Assumptions C07_emit_group.
+Print Assumptions C07_emit_sff_step.
+Print Assumptions C07_emit_path.
+Print Assumptions C07_emit_section.
+Print Assumptions C07_emit_path_join.
+Print Assumptions C07_emit_path_error.
+Print Assumptions C07_emit_dir_error.
+Print Assumptions C07_emit_section_base_error.
+Print Assumptions C07_emit_section_dir_error.
+Print Assumptions C07_partial_segment_object.
+Print Assumptions C07_partial_object_name.
+Print Assumptions C07_partial_object.
+Print Assumptions C07_partial_object_error.
